@@ -197,11 +197,16 @@ pub fn main() -> i32 {
         let mut z = Vec::with_capacity(len + 1);
         z.extend_from_slice(key);
         z.push(0);
-        let Ok(ukey) = UnixStr::try_from_bytes(&z) else { die(94) };
-        match tiny_std::env::var_unix(ukey) {
-            Ok(v) => rec2(b'u', &[1], contents(v)),
-            Err(VarError::Missing) => rec(b'u', &[0]),
-            Err(VarError::NotUnicode(_)) => rec(b'u', &[2]),
+        if key.contains(&0) {
+            // a key with a NUL inside is no UnixStr: only the &str lookup can be asked
+            rec(b'u', &[3]);
+        } else {
+            let Ok(ukey) = UnixStr::try_from_bytes(&z) else { die(94) };
+            match tiny_std::env::var_unix(ukey) {
+                Ok(v) => rec2(b'u', &[1], contents(v)),
+                Err(VarError::Missing) => rec(b'u', &[0]),
+                Err(VarError::NotUnicode(_)) => rec(b'u', &[2]),
+            }
         }
         match core::str::from_utf8(key) {
             Ok(skey) => match tiny_std::env::var(skey) {
